@@ -1,5 +1,5 @@
 (** Request dispatch: one request line in, one response line out. *)
-From Cel.Model Require Export Wire Arith Compare.
+From Cel.Model Require Export Wire Arith Compare Macros.
 Open Scope string_scope.
 
 Definition bad (why : string) : sexp := tagged "bad-request" [Atom why].
@@ -39,6 +39,20 @@ Definition handle (req : sexp) : sexp :=
       | Some c', Some e' => sexp_of_result (eval c' e')
       | None, _ => bad "ctx"
       | _, None => bad "expr"
+      end
+  | SList (Atom "expand" :: f :: tg :: args) =>
+      match opt_str f, opt_map_list expr_of_sexp args,
+            match tg with
+            | Atom _ => Some None
+            | SList [Atom _; te] => option_map Some (expr_of_sexp te)
+            | _ => None
+            end with
+      | Some f', Some args', Some tg' =>
+          match expand_call f' tg' args' with
+          | Some e => tagged "ok" [sexp_of_expr e]
+          | None => Atom "(reject)"
+          end
+      | _, _, _ => bad "expand"
       end
   | SList [Atom "echo"; a] =>
       match value_of_sexp a with
